@@ -1,5 +1,6 @@
 import ScVerif.Base.Line
 import ScVerif.C17.Threads
+import ScVerif.C17.SerialLemmas
 import ScVerif.C17.Adapters
 /-!
 Driver handler for C17.
@@ -67,25 +68,15 @@ structure Trace (ρ : Type) where
   cancel : List Bool
   seen : List (Option Bool)
   left : Nat
-  /-- every observation point so far was a point of quiescence of the model (see `quiescent`) -/
+  /-- every observation point so far was a point of quiescence of the model (`Config.quiescent`, `SerialLemmas.lean`:
+  nothing can move except members still waiting at their gate and the caller cancelling).  The harness observes
+  the code only at such points; `C17_serial_points_quiescent` proves that the schedule run here (`settle`, `block`)
+  reaches one at every observation point, so the flag is always true and `!model-not-quiescent` is never answered. -/
   quiet : Bool := true
-
-/-- The model's counterpart of the harness' quiescence: nothing can move except members still waiting at
-their gate (`.start`) and the caller cancelling - no step of the closer, of the collector, or of a member
-goroutine that has been released is enabled.  The harness observes the code only at such points; the
-driver checks that the schedule it runs (`settle`, `block`) has indeed brought the model to one at every
-observation point, and answers `!model-not-quiescent` otherwise (it never does: a broken correspondence
-of the two schedules would show as a disagreement on every such case rather than pass unnoticed). -/
-def quiescent (C : Consumer σ ρ) (c : Config σ ρ) : Bool :=
-  (step C c .closer).isNone && (step C c .consumer).isNone
-    && (List.range c.members.length).all fun i =>
-      match c.members[i]? with
-      | some .start => true
-      | _ => (step C c (.member i)).isNone
 
 def observe (C : Consumer σ ρ) (c : Config σ ρ) (k : Nat) (tr : Trace ρ) : Trace ρ :=
   { tr with
-    quiet := tr.quiet && quiescent C c
+    quiet := tr.quiet && c.quiescent C
     cancel := tr.cancel ++ [c.cancelled]
     ret := match tr.ret, c.cons with
       | none, .returned _ _ => some k
